@@ -54,14 +54,18 @@ fn get_block_stack_table_removal_multiplicand<E: FieldElement<BaseField = Felt>>
     } else {
         main_trace.addr(i + 1)
     };
-    let is_loop = main_trace.is_loop_flag(i);
+    // the block flags are a part of an END row only (in a RESPAN row the same registers hold
+    // operation groups of the next batch)
+    let is_loop = if is_respan { ZERO } else { main_trace.is_loop_flag(i) };
+    let is_call_or_syscall = !is_respan
+        && (main_trace.is_call_flag(i) == ONE || main_trace.is_syscall_flag(i) == ONE);
 
-    let elements = if main_trace.is_call_flag(i) == ONE || main_trace.is_syscall_flag(i) == ONE {
+    let elements = if is_call_or_syscall {
         let parent_ctx = main_trace.ctx(i + 1);
         let parent_fmp = main_trace.fmp(i + 1);
         let parent_stack_depth = main_trace.stack_depth(i + 1);
         let parent_next_overflow_addr = main_trace.parent_overflow_address(i + 1);
-        let parent_fn_hash = main_trace.fn_hash(i);
+        let parent_fn_hash = main_trace.fn_hash(i + 1);
 
         [
             ONE,
@@ -75,7 +79,7 @@ fn get_block_stack_table_removal_multiplicand<E: FieldElement<BaseField = Felt>>
             parent_fn_hash[0],
             parent_fn_hash[1],
             parent_fn_hash[2],
-            parent_fn_hash[0],
+            parent_fn_hash[3],
         ]
     } else {
         let mut result = [ZERO; 12];
@@ -117,7 +121,7 @@ fn get_block_stack_table_inclusion_multiplicand<E: FieldElement<BaseField = Felt
         let parent_fmp = main_trace.fmp(i);
         let parent_stack_depth = main_trace.stack_depth(i);
         let parent_next_overflow_addr = main_trace.parent_overflow_address(i);
-        let parent_fn_hash = main_trace.decoder_hasher_state_first_half(i);
+        let parent_fn_hash = main_trace.fn_hash(i);
         [
             ONE,
             block_id,
